@@ -72,6 +72,13 @@ func runC08(c *core.Ctx) {
 		c08Case(c, rng, dir, sp, i)
 		done()
 	}
+	if c.Batch%4 == 2 {
+		if rng, ok := c.CaseRng(300000, "name-less flood filling a whole read buffer"); ok {
+			dir, done := caseDir(c, 300000)
+			namelessFlood(c, rng, dir)
+			done()
+		}
+	}
 }
 
 func c08Case(c *core.Ctx, rng *rand.Rand, dir string, sp spelling, idx int) {
